@@ -15,7 +15,7 @@ _lock = threading.Lock()
 class TlcResult:
     def __init__(self):
         self.out = ""; self.cmd = ""; self.generated = 0; self.distinct = 0; self.wall = 0.0
-        self.violated = []; self.errors = []; self.coverage = {}; self.rc = 0; self.trace = []
+        self.violated = []; self.errors = []; self.coverage = {}; self.rc = 0; self.trace = []; self.trace_json = None
 
     def tagged(self, tag):
         """All PrintT(<<tag, json-string, ...>>) tuples as lists of decoded JSON values."""
@@ -98,6 +98,8 @@ def run(module, cfg, consts=None, env=None, workers=1, simulate=None, depth=None
             cmd += ["-depth", str(depth)]
     if seed is not None:
         cmd += ["-seed", str(seed)]
+    if simulate is None:
+        cmd += ["-dumpTrace", "json", str(work / "cex.json")]     # a counterexample, if any, with the variables as JSON values
     cmd += list(extra)
     cmd.append(str(main))
     e = dict(os.environ)
@@ -136,6 +138,13 @@ def run(module, cfg, consts=None, env=None, workers=1, simulate=None, depth=None
             r.coverage[mm.group(1)] = r.coverage.get(mm.group(1), 0) + int(mm.group(4))
     if r.violated:
         r.trace = parse_error_trace(r.out)
+    r.trace_json = None
+    cex = work / "cex.json"
+    if cex.exists():
+        try:
+            r.trace_json = [st[1] for st in json.load(open(cex))["counterexample"]["state"]]
+        except Exception:
+            r.trace_json = None
     fatal = [x for x in r.errors if "Deadlock" not in x]
     if (fatal and not r.violated) or (p.returncode not in (0, 12, 13) and not r.violated and not m):
         raise MachineryError("TLC failed on %s (rc=%s):\n%s\n%s" % (module, p.returncode, r.out[-3000:], p.stderr[-1500:]))
